@@ -145,9 +145,12 @@ async fn ns_case(log: &mut Log, st: &mut Stats, rng: &mut Rng) {
             }
             91..=95 => {
                 st.bump("ns_close");
-                probe.close(pid);
+                // the REAL supervision handler of the NodeServer (exit or failure of the session)
+                let failed = rng.chance(1, 3);
+                let known = probe.session_exit(pid, failed).await;
                 pids.retain(|p| *p != pid);
-                log.rec(format!("close {pid}"), "ok");
+                log.rec(format!("{} {pid}", if failed { "closef" } else { "close" }), if known { "ok" } else { "unknown" });
+                log.rec("residue", show_residue(&probe));
             }
             _ => {
                 st.bump("ns_visible");
@@ -155,6 +158,85 @@ async fn ns_case(log: &mut Log, st: &mut Stats, rng: &mut Rng) {
             }
         }
     }
+    probe.shutdown();
+}
+
+fn show_residue(p: &NodeStateProbe) -> String {
+    let (ns, ids, auth) = p.residue();
+    format!("ns={} ids={} auth={}", show_u64s(&ns), show_u64s(&ids), show_u64s(&auth))
+}
+
+/// register + `check_candidate` + `commit_authenticated` + `is_elected` + the session's own
+/// `CheckSession` of a session that (re)connects
+fn fresh_obs(p: &mut NodeStateProbe, pid: u64, peer: &str, nonce: u64) -> String {
+    let r = p.register(pid, peer, nonce);
+    let c = p.check_candidate(pid);
+    let commit = match p.commit(pid) {
+        None => "none".to_string(),
+        Some((s, mut l)) => {
+            l.sort_unstable();
+            format!("{s} {}", show_u64s(&l))
+        }
+    };
+    format!("{r} | {c} | {commit} | {} {}", p.is_elected(pid), p.check_session(peer, nonce))
+}
+
+/// Session death and reconnection on one node: sessions to a peer (and to a bystander peer) are
+/// opened, registered and authenticated; then EVERY session of the peer exits or fails (the real
+/// supervision handler); the bookkeeping must not mention them any more, and a fresh session of
+/// the same peer (then more of them) is accepted and elected as on a node that never saw the peer.
+async fn ns_reconnect(log: &mut Log, st: &mut Stats, rng: &mut Rng) {
+    let this = *rng.pick(&["m@h", "b@b", "a@a"]);
+    let peer = *rng.pick(&["p@h", "a@z", "zz@h"]);
+    let other = "other@h";
+    let mut probe = NodeStateProbe::new(this).await;
+    log.rec(format!("ns {this}"), "ok");
+    st.bump("reconnect_case");
+    let mut old: Vec<u64> = Vec::new();
+    for _ in 0..rng.range(1, 4) {
+        let srv = rng.chance(1, 2);
+        let pid = probe.open(srv).await;
+        log.rec(format!("open {srv} {pid}"), "ok");
+        let nonce = *rng.pick(&[0u64, 4, 9]);
+        // some sessions die before they registered / authenticated
+        match rng.below(5) {
+            0 => {}
+            1 => {
+                let r = probe.register(pid, peer, nonce);
+                log.rec(format!("register {pid} {peer} {nonce}"), r.to_string());
+            }
+            _ => log.rec(format!("fresh {pid} {peer} {nonce}"), fresh_obs(&mut probe, pid, peer, nonce)),
+        }
+        old.push(pid);
+    }
+    // a bystander peer whose session must be left alone
+    let by = probe.open(true).await;
+    log.rec(format!("open true {by}"), "ok");
+    log.rec(format!("fresh {by} {other} 5"), fresh_obs(&mut probe, by, other, 5));
+    rng.shuffle(&mut old);
+    for pid in &old {
+        let failed = rng.chance(1, 2);
+        let known = probe.session_exit(*pid, failed).await;
+        st.bump(if failed { "reconnect_failed_exit" } else { "reconnect_exit" });
+        log.rec(format!("{} {pid}", if failed { "closef" } else { "close" }), if known { "ok" } else { "unknown" });
+        log.rec("residue", show_residue(&probe));
+    }
+    log.rec("visible", show_u64s(&probe.visible()));
+    // the peer comes back
+    let mut fresh: Vec<u64> = Vec::new();
+    for _ in 0..rng.range(1, 3) {
+        let srv = rng.chance(1, 2);
+        let pid = probe.open(srv).await;
+        log.rec(format!("open {srv} {pid}"), "ok");
+        let nonce = *rng.pick(&[0u64, 3, 4, 9]);
+        log.rec(format!("fresh {pid} {peer} {nonce}"), fresh_obs(&mut probe, pid, peer, nonce));
+        fresh.push(pid);
+        log.rec("visible", show_u64s(&probe.visible()));
+    }
+    for q in fresh.iter().chain([by].iter()) {
+        log.rec(format!("elected {q}"), probe.is_elected(*q).to_string());
+    }
+    log.rec("residue", show_residue(&probe));
     probe.shutdown();
 }
 
@@ -224,8 +306,9 @@ async fn ns_flow(log: &mut Log, st: &mut Stats, rng: &mut Rng) {
         for x in &to_close {
             if rng.chance(1, 2) {
                 // the handler stops losers; their exit removes them from the state
-                probe.close(*x);
-                log.rec(format!("close {x}"), "ok");
+                let known = probe.session_exit(*x, false).await;
+                log.rec(format!("close {x}"), if known { "ok" } else { "unknown" });
+                log.rec("residue", show_residue(&probe));
             }
         }
         log.rec("visible", show_u64s(&probe.visible()));
@@ -247,6 +330,7 @@ async fn ns_flow(log: &mut Log, st: &mut Stats, rng: &mut Rng) {
 struct HsLink {
     ida: u64,
     idb: u64,
+    nonce: u64,
     open_a: bool,
     open_b: bool,
     auth_a: bool,
@@ -257,9 +341,14 @@ struct HsWorld {
     ls: Vec<HsLink>,
     pa: NodeStateProbe,
     pb: NodeStateProbe,
+    name_a: String,
+    name_b: String,
 }
 
-const HS_KINDS: [&str; 6] = ["hauthA", "hauthB", "hpreA", "hpreB", "hseeA", "hseeB"];
+/// kinds 6/7 (`hpsA`/`hpsB`): the pre-authentication check as the SESSION performs it —
+/// `CheckSession` with the peer's name and this connection's nonce (`check_session`), which looks
+/// the candidate up by (name, nonce) first and answers `NoOtherConnection` when that is ambiguous
+const HS_KINDS: [&str; 8] = ["hauthA", "hauthB", "hpreA", "hpreB", "hseeA", "hseeB", "hpsA", "hpsB"];
 
 impl HsWorld {
     /// returns the world and the `hs` op line describing it (with the real pids)
@@ -274,9 +363,38 @@ impl HsWorld {
             pa.register(ida, b, *nonce);
             pb.register(idb, a, *nonce);
             desc.push(format!("{a_init}:{nonce}:{ida}:{idb}"));
-            ls.push(HsLink { ida, idb, open_a: true, open_b: true, auth_a: false, auth_b: false });
+            ls.push(HsLink { ida, idb, nonce: *nonce, open_a: true, open_b: true, auth_a: false, auth_b: false });
         }
-        (Self { ls, pa, pb }, format!("hs {a} {b} {}", desc.join(",")))
+        (Self { ls, pa, pb, name_a: a.to_string(), name_b: b.to_string() }, format!("hs {a} {b} {}", desc.join(",")))
+    }
+
+    /// a connection dialled while the run is under way (also after a link is up): a fresh,
+    /// registered, not yet authenticated session on both nodes. op `hdial <aInit:nonce:idA:idB>`
+    async fn dial(&mut self, a: &str, b: &str, a_init: bool, nonce: u64) -> String {
+        let ida = self.pa.open(!a_init).await;
+        let idb = self.pb.open(a_init).await;
+        self.pa.register(ida, b, nonce);
+        self.pb.register(idb, a, nonce);
+        self.ls.push(HsLink { ida, idb, nonce, open_a: true, open_b: true, auth_a: false, auth_b: false });
+        format!("hdial {a_init}:{nonce}:{ida}:{idb}")
+    }
+
+    /// one end of connection `i` goes away for a reason outside the election (transport failure,
+    /// the session gave up): the session exits, the NodeServer forgets it. op `hfailA|hfailB <id>`
+    async fn fail(&mut self, on_a: bool, i: usize, failed: bool) -> String {
+        let id = if on_a { self.ls[i].ida } else { self.ls[i].idb };
+        let open = if on_a { self.ls[i].open_a } else { self.ls[i].open_b };
+        if open {
+            // through the REAL supervision handler of the NodeServer (ActorTerminated / ActorFailed)
+            if on_a {
+                self.pa.session_exit(id, failed).await;
+                self.ls[i].open_a = false;
+            } else {
+                self.pb.session_exit(id, failed).await;
+                self.ls[i].open_b = false;
+            }
+        }
+        format!("{} {id}", if on_a { "hfailA" } else { "hfailB" })
     }
 
     fn obs(&self) -> String {
@@ -323,6 +441,18 @@ impl HsWorld {
                 if open && !auth && p.check_candidate(id) == "otherContinues" {
                     st.bump("hs_pre_closed");
                     closed.push(id);
+                }
+            }
+            6 | 7 => {
+                let peer = if on_a { self.name_b.clone() } else { self.name_a.clone() };
+                let nonce = self.ls[i].nonce;
+                if open && !auth {
+                    let r = p.check_session(&peer, nonce);
+                    st.bump(&format!("hs_checks_{r}"));
+                    if r == "otherContinues" || r == "duplicate" {
+                        st.bump("hs_pre_closed");
+                        closed.push(id);
+                    }
                 }
             }
             _ => {
@@ -395,7 +525,7 @@ async fn hs_case(log: &mut Log, st: &mut Stats, rng: &mut Rng) {
     let steps = rng.range(0, 5 * n as u64);
     for _ in 0..steps {
         let i = rng.below(n as u64) as usize;
-        let kind = *rng.pick(&[0usize, 0, 0, 1, 1, 1, 2, 3, 4, 4, 5, 5]);
+        let kind = *rng.pick(&[0usize, 0, 0, 1, 1, 1, 2, 3, 6, 6, 7, 7, 4, 4, 5, 5]);
         let op = w.exec(kind, i, st);
         st.bump("hs_step");
         log.rec(op, w.obs());
@@ -412,6 +542,43 @@ async fn hs_case(log: &mut Log, st: &mut Stats, rng: &mut Rng) {
         log.rec(op, w.obs());
     }
     log.rec("hend", w.obs());
+    // round 4: the run goes on — late / repeated dials (the link above is up and at rest), and, in
+    // one case in three, ends of connections going away at arbitrary moments
+    if rng.chance(2, 3) {
+        let with_failures = rng.chance(1, 3);
+        st.bump(if with_failures { "hs_late_with_failures" } else { "hs_late_dials" });
+        for _ in 0..rng.range(1, 3) {
+            let a_init = rng.chance(1, 2);
+            let op = w.dial(&a, &b, a_init, *rng.pick(&[0u64, 0, 1, 3, 5, 8])).await;
+            st.bump("hs_late_dial");
+            log.rec(op, w.obs());
+            let m = w.ls.len();
+            for _ in 0..rng.range(0, 6) {
+                let i = rng.below(m as u64) as usize;
+                if with_failures && rng.chance(1, 4) {
+                    let op = w.fail(rng.chance(1, 2), i, rng.chance(1, 2)).await;
+                    st.bump("hs_fail");
+                    log.rec(op, w.obs());
+                } else {
+                    let kind = *rng.pick(&[0usize, 0, 0, 1, 1, 1, 2, 3, 6, 6, 7, 7, 4, 4, 5, 5]);
+                    let op = w.exec(kind, i, st);
+                    st.bump("hs_step");
+                    log.rec(op, w.obs());
+                }
+            }
+        }
+        loop {
+            let todo = w.due();
+            if todo.is_empty() {
+                break;
+            }
+            let (kind, i) = *rng.pick(&todo);
+            let op = w.exec(kind, i, st);
+            st.bump("hs_step");
+            log.rec(op, w.obs());
+        }
+        log.rec("hend", w.obs());
+    }
     w.shutdown();
 }
 
@@ -454,8 +621,10 @@ async fn ns_noninterference(log: &mut Log, st: &mut Stats, rng: &mut Rng) {
         show_u64s(&v)
     };
     log.rec(format!("ni begin {this} {peer} n={n} spoof_at={spoof_at}"), "ok");
+    let mut nonces: Vec<u64> = Vec::new();
     for i in 0..n {
         let nonce = *rng.pick(&[0u64, 0, 4, 4, 9]);
+        nonces.push(nonce);
         p1.register(ids1[i], peer, nonce);
         p2.register(ids2[i], peer, nonce);
         log.rec(format!("ni checkc {i}"), format!("{} | {}", p1.check_candidate(ids1[i]), p2.check_candidate(ids2[i])));
@@ -476,6 +645,13 @@ async fn ns_noninterference(log: &mut Log, st: &mut Stats, rng: &mut Rng) {
         for j in 0..n {
             log.rec(format!("ni elected {j}"), format!("{} | {}", p1.is_elected(ids1[j]), p2.is_elected(ids2[j])));
             log.rec(format!("ni checkc {j}"), format!("{} | {}", p1.check_candidate(ids1[j]), p2.check_candidate(ids2[j])));
+            // what the SESSIONS call (`CheckSession` with their own name + nonce): a spoofer sharing
+            // (name, nonce) makes the query ambiguous -> the reply may change, but only to `noOther`
+            let (c1, c2) = (p1.check_session(peer, nonces[j]), p2.check_session(peer, nonces[j]));
+            if c1 != c2 {
+                st.bump("ni_checks_flipped_by_spoofer");
+            }
+            log.rec(format!("ni checks {j}"), format!("{c1} | {c2}"));
         }
     }
     p1.shutdown();
@@ -519,6 +695,7 @@ async fn replay_ops(log: &mut Log, st: &mut Stats, path: &str) {
     let mut probe: Option<NodeStateProbe> = None;
     let mut hs: Option<HsWorld> = None;
     let mut hs_old: Vec<(u64, u64)> = Vec::new();
+    let mut hs_names: (String, String) = (String::new(), String::new());
     let mut map: std::collections::HashMap<u64, u64> = Default::default();
     let mut regs: std::collections::HashMap<u64, (String, u64)> = Default::default();
     let m = |map: &std::collections::HashMap<u64, u64>, p: &str| -> u64 {
@@ -566,6 +743,7 @@ async fn replay_ops(log: &mut Log, st: &mut Stats, path: &str) {
                 let conns: Vec<(bool, u64)> = parsed.iter().map(|c| (c.0, c.1)).collect();
                 let (w, line) = HsWorld::new(a, b, &conns).await;
                 hs_old = parsed.iter().map(|c| (c.2, c.3)).collect();
+                hs_names = (a.to_string(), b.to_string());
                 log.rec(line, "ok");
                 hs = Some(w);
             }
@@ -576,6 +754,29 @@ async fn replay_ops(log: &mut Log, st: &mut Stats, path: &str) {
                     let idx = hs_old.iter().position(|(ia, ib)| if kind % 2 == 0 { *ia == old } else { *ib == old });
                     if let Some(i) = idx {
                         let op = w.exec(kind, i, st);
+                        log.rec(op, w.obs());
+                    }
+                }
+            }
+            ["hdial", c] => {
+                if let Some(w) = hs.as_mut() {
+                    let f: Vec<&str> = c.split(':').collect();
+                    if let (Some(ai), Some(n), Some(ia), Some(ib)) =
+                        (f.first(), f.get(1).and_then(|x| x.parse::<u64>().ok()), f.get(2).and_then(|x| x.parse::<u64>().ok()), f.get(3).and_then(|x| x.parse::<u64>().ok()))
+                    {
+                        let (na, nb) = hs_names.clone();
+                        let op = w.dial(&na, &nb, *ai == "true", n).await;
+                        hs_old.push((ia, ib));
+                        log.rec(op, w.obs());
+                    }
+                }
+            }
+            [k, old] if *k == "hfailA" || *k == "hfailB" => {
+                if let Some(w) = hs.as_mut() {
+                    let on_a = *k == "hfailA";
+                    let old: u64 = old.parse().unwrap_or(0);
+                    if let Some(i) = hs_old.iter().position(|(ia, ib)| if on_a { *ia == old } else { *ib == old }) {
+                        let op = w.fail(on_a, i, false).await;
                         log.rec(op, w.obs());
                     }
                 }
@@ -646,10 +847,18 @@ async fn replay_ops(log: &mut Log, st: &mut Stats, path: &str) {
                         let (peer, nonce) = regs.get(&pid).cloned().unwrap_or_default();
                         log.rec(format!("postauth {pid}"), format!("{} {}", p.is_elected(pid), p.check_session(&peer, nonce)));
                     }
-                    ["close", pid] => {
+                    [kind @ ("close" | "closef"), pid] => {
                         let pid = m(&map, pid);
-                        p.close(pid);
-                        log.rec(format!("close {pid}"), "ok");
+                        let known = p.session_exit(pid, *kind == "closef").await;
+                        log.rec(format!("{kind} {pid}"), if known { "ok" } else { "unknown" });
+                    }
+                    ["residue"] => log.rec("residue", show_residue(p)),
+                    ["fresh", pid, peer, nonce] => {
+                        let pid = m(&map, pid);
+                        let nonce: u64 = nonce.parse().unwrap_or(0);
+                        let obs = fresh_obs(p, pid, peer, nonce);
+                        regs.insert(pid, (peer.to_string(), nonce));
+                        log.rec(format!("fresh {pid} {peer} {nonce}"), obs);
                     }
                     ["visible"] => log.rec("visible", show_u64s(&p.visible())),
                     _ => log.rec(line, "unsupported-in-replay"),
@@ -716,6 +925,7 @@ async fn main() {
         ns_case(&mut log, &mut st, &mut rng).await;
         ns_flow(&mut log, &mut st, &mut rng).await;
         ns_noninterference(&mut log, &mut st, &mut rng).await;
+        ns_reconnect(&mut log, &mut st, &mut rng).await;
     }
     for _ in 0..cases {
         hs_case(&mut log, &mut st, &mut rng).await;
